@@ -34,7 +34,8 @@ def cfg_text(import_ids, new_ids, labels, wscrypt, max_obj, max_ops, acts, dev_n
              "VIEW viewn" if oneshot else "VIEW view",
              "INVARIANTS " + " ".join(invariants)]
     if props:
-        lines.append("PROPERTIES FailNoChange AuthCurrent")
+        # AuthCurrent is trivial for a single thread (check and act of a call are one step)
+        lines.append("PROPERTIES FailNoChange AuthCurrent" if len(threads) > 1 else "PROPERTIES FailNoChange")
     if export:
         lines += ["CONSTRAINT InitOutN", "ACTION_CONSTRAINT EdgeN"] if oneshot else ["CONSTRAINT InitOut", "ACTION_CONSTRAINT Edge"]
     lines.append("CHECK_DEADLOCK FALSE")
